@@ -74,8 +74,11 @@ def describe(c):
                 "accepted although the property forbids it: %s; rejected although it is one of the three allowed spends: %s"
                 % (c.get("chain"), c.get("sequence"), c.get("tx_version"), c.get("flags"), c.get("hash_is_sha256_of"),
                    c.get("same_key"), json.dumps(wrong_acc[:6]), json.dumps(wrong_rej[:6])))
+    if fam == "chain" and c.get("output_script_validated") != c.get("output_script_funded_at_creation"):
+        return "%s: the output script funded when the opening tx is created (%s) is not the one the node validates/spends (%s)" % (
+            c.get("chain"), c.get("output_script_funded_at_creation"), c.get("output_script_validated"))
     if fam == "chain":
-        return "opening script of %s commits to csv %s / policy csv %s, not the property's number" % (
+        return "opening script of %s (built with csv %s, timelock policy csv %s) does not contain <CSV of the property text> OP_CHECKSEQUENCEVERIFY, or the policy csv differs from it" % (
             c.get("chain"), c.get("script_csv"), c.get("policy_csv"))
     return "ParamsToTxScript output does not parse as a script"
 
